@@ -15,7 +15,7 @@ import numpy as np
 
 from . import alignrec as ar
 from . import tlc
-from .common import MachineryError, breadcrumb, import_repo, seed
+from .common import MachineryError, breadcrumb, import_repo, scratch, seed
 
 G_SCALE = 8          # family G: dyadic tables, 1.0 = 8 units
 R_SCALE = 1 << 14    # family R: tables observed through the compiled form
@@ -85,8 +85,30 @@ UNIVERSES = {
     "4x1hi3": dict(na=4, maxu=1, dvals="{0, 44, 52, 68}", de=8, sample=0),
     "3x2hi": dict(na=3, maxu=2, dvals="{0, 6, 36, 44}", de=8, sample=6),
     "5x1": dict(na=5, maxu=1, dvals="{2, 18}", de=8, sample=0),
-    "5x2": dict(na=5, maxu=2, dvals="{0, 8, 18}", de=8, sample=1),
+    "5x2": dict(na=5, maxu=2, dvals="{0, 8, 18}", de=8, sample=1, maxunits=7),     # (TLC's exhaustive optimum: <= 7 units here)
 }
+
+
+def sampled_instances(u, rng):
+    """u["sample"] random tables for every size vector of the universe (at least one annotator with a unit)."""
+    import itertools
+    na, maxu, de = u["na"], u["maxu"], u["de"]
+    vals = [int(x) for x in u["dvals"].strip("{}").split(",")]
+    out = []
+    for sizes in itertools.product(range(maxu + 1), repeat=na):
+        if not any(sizes) or sum(sizes) > u.get("maxunits", 99):
+            continue
+        npairs = sum(sizes[a] * sizes[b] for a in range(na) for b in range(a + 1, na))
+        count = min(u["sample"], len(vals) ** npairs)
+        seen = set()
+        while len(seen) < count:
+            D = [[[[rng.choice(vals) for _ in range(sizes[b])] for _ in range(sizes[a])] if a < b else [] for b in range(na)] for a in range(na)]
+            key = json.dumps(D)
+            if key in seen:
+                continue
+            seen.add(key)
+            out.append({"n": na, "sizes": list(sizes), "de": de, "D": D})
+    return out
 
 
 def l1_align(rep, names, emit=False, sample_mult=1, inv=False):
@@ -94,8 +116,14 @@ def l1_align(rep, names, emit=False, sample_mult=1, inv=False):
     for name in names:
         u = dict(UNIVERSES[name])
         u["sample"] = u["sample"] * sample_mult
-        cfg = MC_ALIGN_CFG.format(variant="none", emit="TRUE" if emit else "FALSE", inv="TRUE" if inv else "FALSE", **u)
-        res = tlc.run("MC_Align", cfg, label=f"MC_Align {name}", workers=16, timeout=1500)
+        cfg = MC_ALIGN_CFG.format(variant="none", emit="TRUE" if emit else "FALSE", inv="TRUE" if inv else "FALSE",
+                                  **{k: v for k, v in u.items() if k != "maxunits"})
+        env = None
+        if u["sample"] > 0:
+            path = scratch() / f"insts-{name}.json"
+            path.write_text(json.dumps({"insts": sampled_instances(u, random.Random(seed() * 7907 + sum(map(ord, name))))}))
+            env = {"TRACE_FILE": str(path)}
+        res = tlc.run("MC_Align", cfg, label=f"MC_Align {name}", workers=16, timeout=2400, env=env)
         if res.violated:
             raise MachineryError(f"MC_Align {name}: spec violates {res.violated}\n{res.trace_text[:2000]}")
         tlc.require(res, actions=["Solve"])
